@@ -1037,4 +1037,73 @@ theorem parseBracket_spec (k : BK) (name tail : Str) (inner : Frag)
   rw [← kGroupsAt_snd k g.2 (g.1 + 1), List.map_map]
   rfl
 
+/-- `parse(prefix + group + tail)` where the prefix is ANY fragment without a top-level group of the kind (blanks,
+    delimiters, strings, groups of the other kinds — `g[(1)]`): the root entry is the block of the group. -/
+theorem parse_root_frag (k : BK) (a inner : Frag) (tail : Str) (ha : Frag.Simple a) (hak : hitK k a = none)
+    (htail : ∀ c ∈ tail, has Frag.special c = false) (hi : Frag.Simple inner) :
+    ∃ ins, parse (a.render ++ k.open :: (inner.render ++ k.close :: tail)) [k.open, k.close] []
+        = .ok (Entry.mk (ebOf a 0 0) (a.render.length + 1 + inner.render.length + 1) 0 .Block ins) ∧
+      (∃ b, analyzeEntry (a.render ++ k.open :: (inner.render ++ k.close :: tail)) [k.open, k.close] [] (ebOf a 0 0)
+        = .ok (.block b a.render.length)) ∧
+      (∀ n, Good (a.render ++ k.open :: (inner.render ++ k.close :: tail)) k n ins (kGroupsAt k inner (a.render.length + 1))) ∧
+      Leafy ins := by
+  have hg := hitK_append k a (Frag.group k inner .nil) hak
+  have hfh : hitK k (a ++ Frag.group k inner .nil) = some (inner, .nil) := by rw [hg.1]; simp [hitK]
+  have hfp : preK k (a ++ Frag.group k inner .nil) = a := by rw [hg.2]; simp [preK, append_nil_frag]
+  have hfs : Frag.Simple (a ++ Frag.group k inner .nil) := (simple_append_iff _ _).mpr ⟨ha, by simp [hi]⟩
+  have hfr : (a ++ Frag.group k inner .nil : Frag).render ++ tail = a.render ++ k.open :: (inner.render ++ k.close :: tail) := by
+    simp [render_append, Frag.render]
+  have hana := analyze_block k _ inner .nil hfs hfh [] tail
+  obtain ⟨bre, hre⟩ := reanalyze k _ inner .nil hfs hfh [] tail
+  rw [hfp] at hana hre
+  simp only [List.nil_append, List.length_nil, Nat.zero_add, hfr] at hana hre
+  generalize hT : a.render ++ k.open :: (inner.render ++ k.close :: tail) = T at hana hre
+  have hB : BlockOK k inner := blockOK_of_parseOK k inner hi (parseOK k _ inner rfl hi)
+  have e1 : T = (a.render ++ [k.open]) ++ (inner.render ++ k.close :: tail) := by rw [← hT]; simp
+  have l1 : a.render.length + 1 = (a.render ++ [k.open]).length := by simp
+  have hlen : T.length = a.render.length + inner.render.length + tail.length + 2 := by rw [← hT]; simp; omega
+  obtain ⟨ins, hins, hgood, hleaf⟩ := hB (a.render ++ [k.open]) tail 0 [] (parseFuel T - 1) (by unfold parseFuel; omega)
+  rw [← e1, ← l1] at hins hgood
+  simp only [List.nil_append] at hins
+  have e2 : T = (a.render ++ k.open :: (inner.render ++ [k.close])) ++ tail := by rw [← hT]; simp
+  have l2 : a.render.length + 1 + inner.render.length + 1 = (a.render ++ k.open :: (inner.render ++ [k.close])).length := by
+    simp; omega
+  obtain ⟨j, hj⟩ := parseLoop_tail k (a.render ++ k.open :: (inner.render ++ [k.close])) tail 0
+    ([] ++ [Entry.mk (ebOf a 0 0) (a.render.length + 1 + inner.render.length + 1) 0 .Block ins]) (parseFuel T - 1)
+    (by unfold parseFuel; omega) htail
+  rw [← e2, ← l2] at hj
+  refine ⟨ins, ?_, ⟨bre, hre⟩, hgood, hleaf⟩
+  have hf : parseFuel T = (parseFuel T - 1) + 1 := by unfold parseFuel; omega
+  have hlt : 0 < T.length := by omega
+  unfold parse
+  rw [hf, parseLoop, if_pos hlt]
+  simp only [hana, bind, Except.bind, hins, hj]
+  rfl
+
+/-- `parse_bracket(prefix + group + tail) = bracketSpec` for every prefix fragment without a top-level group of the kind. -/
+theorem parseBracket_spec_frag (k : BK) (a inner : Frag) (tail : Str) (ha : Frag.Simple a) (hak : hitK k a = none)
+    (htail : ∀ c ∈ tail, has Frag.special c = false) (hi : Frag.Simple inner) :
+    parseBracket (a.render ++ k.open :: (inner.render ++ k.close :: tail)) [k.open, k.close] = .ok (bracketSpec k inner) := by
+  obtain ⟨ins, hparse, hre, hgood, hleaf⟩ := parse_root_frag k a inner tail ha hak htail hi
+  generalize hT : a.render ++ k.open :: (inner.render ++ k.close :: tail) = T at hparse hgood hre
+  have hroot : Sits T k (a.render.length, inner) := ⟨a.render, tail, by rw [← hT]; simp [groupText], rfl⟩
+  have hstep : bracketStep T [k.open, k.close] [] (Entry.mk (ebOf a 0 0) (a.render.length + 1 + inner.render.length + 1) 0 .Block ins)
+      = .ok ([] ++ [groupText k inner]) :=
+    step_block T k [] _ (a.render.length, inner) rfl ⟨hre, by simp only [Entry.end_]; omega⟩ hroot
+  have hsits : ∀ g ∈ kGroupsAt k inner (a.render.length + 1), Sits T k g := sits_inner T k (a.render.length, inner) hroot
+  have hf1 := fold1 T k ins _ ([] ++ [groupText k inner]) (hgood 1) hleaf hsits
+  unfold parseBracket
+  rw [hparse]
+  have hu : (Entry.mk (ebOf a 0 0) (a.render.length + 1 + inner.render.length + 1) 0 .Block ins).unders
+      = ins.flatMap fun x => x :: x.entries := rfl
+  simp only [Except.bind, hu]
+  rw [foldlM_cons_ok _ _ _ [] _ hstep, hf1]
+  simp only [bracketSpec, List.nil_append, List.singleton_append]
+  congr 2
+  rw [← kGroupsAt_snd k inner (a.render.length + 1), List.flatMap_map]
+  congr 1
+  funext g
+  rw [← kGroupsAt_snd k g.2 (g.1 + 1), List.map_map]
+  rfl
+
 end Tranp.Block
